@@ -89,7 +89,7 @@ def position_transact(c):
         # input region 0 < q < 1 (a fraction of a share bought): one statement-level clause, kept apart so that the
         # finding is identified by its input region
         c.ob('[%s]/total-is-mv-minus-cashflow-minus-commission' % region,
-             EQ(pos.total_pnl, pos.market_value - (Gb2 - Gs2) - (bc2 + sc2), scale), region=region)
+             EQ(pos.total_pnl, pos.market_value - (Gb2 - Gs2) - (bc2 + sc2), scale), props=['C03'], region=region)
         return
     c.ob('net-quantity-adds-fill', EQ(pos.net_quantity, s['bq'] - s['sq'] + q))
     c.ob('avg-bought-times-qty-is-buy-consideration', EQ(pos.avg_bought * pos.buy_quantity, Gb2, scale))
